@@ -25,6 +25,11 @@ X = ("\ufeff", "\u2028", "\x0b", "\x85", "\x00", "\x1c",
      "\x7f", "\x80", "\u07ff", "\u0800", "\uffff", "\U00010000", "\U0010ffff",
      # characters of the escaping layer (a fold must be allowed between a backslash and what follows)
      "\\", ";", ",", '"')
+# characters that take part in grapheme clusters / bidirectional text: to a fold they are ordinary characters of their width
+J = ("\u200d", "\u200c", "\ufe0f", "\U0001F468", "\U0001F3FB", "\U0001F1E9", "\u0301", "\u00ad", "\u2060", "\u200f", "\u202e",
+     "\U000E0062", "\u034f", "\u0e33", "a")
+CLUSTERS = ("\U0001F468\u200d\U0001F469\u200d\U0001F467", "\U0001F1E9\U0001F1EA", "1\ufe0f\u20e3", "\u0915\u094d\u200d\u0937",
+            "\U0001F44D\U0001F3FB", "\U0001F3F4\U000E0067\U000E0062\U000E007F", "e\u0301\u0323", "\u05d0\u200f\u202eabc\u202c")
 LIMIT = 75
 
 
@@ -147,9 +152,35 @@ def run_component(case):
 
 
 TAILS_Q = (0, 1, 73, 74, 75, 76, 150)
+BLOCK = 256
+ALIGN = (70, 71, 72, 73, 74, 75)  # a^p.c.bbb: c starts 5..0 octets before the budget of the first physical line ends
+
+
+def run_block(case):
+    """('blk', start): EVERY Unicode scalar value of one 256-code-point block as the character at the fold point."""
+    _, start = case
+    fails, n, hist = [], 0, {}
+    for cp in range(start, start + BLOCK):
+        if cp == 0x0A or 0xD800 <= cp <= 0xDFFF or cp > 0x10FFFF:
+            continue
+        c = chr(cp)
+        for p in ALIGN:
+            line = "a" * p + c + "bbb"
+            sub = ("pws", p, c, 3)
+            cl = Contentline(line)
+            out = cl.to_ical()
+            k = check_bytes(out, line, fails, sub, "line")
+            hist[k] = hist.get(k, 0) + 1
+            if str(Contentline.from_ical(out.decode("utf-8", "replace"))) != line:
+                fails.append({"cls": "line:library-unfold-differs", "case": sub, "expected": line, "observed": out})
+            n += 1
+    return {"n": n, "traces": n, "state": (start, tuple(sorted(hist.items()))), "trans": 2 * n, "nnontrivial": n - hist.get(1, 0),
+            "nontrivial": True, "outcome": "block-ok" if not fails else "FAIL", "fails": fails[:5]}
 
 
 def replay(case):
+    if case[0] == "blk":
+        return run_block(case)
     return run_component(case) if case[0] == "comp" else run_line(case)
 
 
@@ -160,11 +191,11 @@ def run(ctx):
     ctx.rule = ("E-enum over width alphabet W={a,e-acute(2 octets),euro(3),emoji(4),SP,TAB,CR,U+0301,U+3099}: (i) all lines a^p.w.b^s, "
                 f"p in 0..160, w in W^<={j}, s in {TAILS_Q}; (ii) all periodic lines a^p.(w)^r, w in W^1..{m}, p in 0..3, "
                 f">=165 octets; (iii) a^p.w.b^s (w in W^<={jc}) as property value, parameter value and ALTREP+DESCRIPTION "
-                "of an event inside a calendar; (vi) short property names x k repetitions (k <= 40/80) of one character or a two-character unit of every width through the component path; (iv)/(v) the same shapes with words over W + {U+FEFF, U+2028, VT, U+0085, NUL, FS, and the boundary code points U+007F/0080/07FF/0800/FFFF/10000/10FFFF} containing at least one of these. non-trivial = the line was actually folded.")
+                "of an event inside a calendar; (vi) short property names x k repetitions (k <= 40/80) of one character or a two-character unit of every width through the component path; (iv)/(v) the same shapes with words over W + {U+FEFF, U+2028, VT, U+0085, NUL, FS, and the boundary code points U+007F/0080/07FF/0800/FFFF/10000/10FFFF} containing at least one of these; (vii) words of <=2/3 characters over 14 joiner / variation-selector / combining / bidi / tag characters (U+200D, U+200C, U+FE0F, ...) and 8 real grapheme clusters (ZWJ family, flag, keycap, conjunct, skin tone, tag flag) at every alignment p in 0..160; (viii) a^p.c.bbb for EVERY Unicode scalar value c except LF (all 1,112,063, both tiers) x p in 70..75, i.e. every position of c relative to the octet budget. non-trivial = the line was actually folded.")
     ctx.bounds = {"alphabet": [repr(c) for c in W], "prefix_len": "0..160", "w_len_i": j, "w_len_ii": m,
                   "tails": list(TAILS_Q), "limit": LIMIT}
     ctx.assumptions += ["lines contain no LF (the library asserts this; statement quantifies over lines without LF)",
-                        "characters outside W and the thirteen special characters (other scalar values of the same UTF-8 width) fold like their width class"]
+                        "in words of two or more characters, characters outside W, X and J fold like their width class (single characters at the fold point: every scalar value is enumerated)"]
 
     def gen_i():
         for w in words(j):
@@ -216,6 +247,30 @@ def run(ctx):
                 for k in range(0, 41 if ctx.quick else 81):
                     yield ("comp", "named:" + name, k, unit, 0)
 
+    def gen_j():
+        for n in range(1, (2 if ctx.quick else 3) + 1):
+            for t in itertools.product(J, repeat=n):
+                if all(c == "a" for c in t):
+                    continue
+                for pp in range(0, 161):
+                    for sfx in (0, 74):
+                        yield ("pws", pp, "".join(t), sfx)
+        for w in CLUSTERS:
+            for pp in range(0, 161):
+                for sfx in (0, 1, 74, 150):
+                    yield ("pws", pp, w, sfx)
+                for where in ("value", "param", "two"):
+                    yield ("comp", where, pp, w, 0)
+            for r in range(1, 40):
+                yield ("per", 0, w, r)
+
+    def gen_all():
+        # all 4352 blocks = every scalar value, in both tiers
+        for b in range(0, 0x110000, BLOCK):
+            yield ("blk", b)
+
+    ctx.explore("viii:every-scalar-value-at-the-fold-point", gen_all, run_block)
     ctx.explore("vi:short-names-x-homogeneous-values", gen_short, run_component)
+    ctx.explore("vii:joiners-and-grapheme-clusters", gen_j, lambda case: run_component(case) if case[0] == "comp" else run_line(case))
     ctx.explore("iv:special-characters", gen_x, run_line)
     ctx.explore("v:special-characters-in-components", gen_xc, run_component)
